@@ -2,5 +2,6 @@ From Coq Require Import Extraction ExtrOcamlBasic NArith ZArith.
 From V Require Import C01.Model C02.Model.
 Extraction "c02_model.ml" tx_hash tx_commitment event_commitment receipt_commitment sd_hash sd_length
   concat_counts gas_prices_hash block_hash block_hash_0134 block_hash_0132 block_hash_post07 block_hash_pre07 tx_commitment_ped event_commitment_ped ver_ge counts_term
-  accept push run term_eqb succession_ok roots_ok block_hash_ok tx_hashes_ok receipts_match
+  accept_ev push_ev run_ev seal_ev verify_block_hash su_ok classes_ok class_ok class_hash class_key version_felt eps_hash
+  diff_applicable casm_ok next_state accept push run term_eqb succession_ok roots_ok block_hash_ok tx_hashes_ok receipts_match new_state empty_chain felt_P
   commitment s_run apply_diff empty_state to_diff N.of_nat Z.of_N.
